@@ -407,6 +407,8 @@ impl<'a> Exec<'a> {
         clk::set_read_step(dur(trace.read_step_ns));
         crate::simclock::set_read_step(dur(trace.read_step_ns));
         let direct_before = crate::simclock::direct_reads() + apimon::foreign_direct_reads();
+        crate::simenv::set_mode(trace.env_mode);
+        let env_reads_before = crate::simenv::reads();
         let timeout = dur(trace.timeout_ns);
         let mut sink = Sink::new();
         let init = (|| -> Result<(Scn, Vec<Scn>, Scn), Panicked> {
@@ -531,6 +533,8 @@ impl<'a> Exec<'a> {
         let _ = allocs_before;
         e.p.clock_reads = clk::clock_reads().wrapping_add(apimon::foreign_clock_reads()).wrapping_sub(clock_reads_before);
         e.p.direct_clock_reads = crate::simclock::direct_reads() + apimon::foreign_direct_reads() - direct_before;
+        e.p.env_reads = crate::simenv::reads() - env_reads_before;
+        e.p.env_mode_runs[trace.env_mode as usize % 4] += 1;
         let calls = apimon::calls();
         for i in 0..apimon::N_LABELS {
             e.p.api_calls[i] = calls[i] - calls_before[i];
@@ -604,6 +608,126 @@ impl<'a> Exec<'a> {
         })?;
         let ok = a == is_cc14_cn(n) && b == if n < 32 { Some(n + 32) } else { None } && c == is_pn_cn(n);
         self.sink.check(R::C16_predicate, ok, || format!("controller {}: can_be_part_of_14_bit={} corresponding_lsb={:?} is_parameter_number={}", n, a, b, c));
+        Ok(())
+    }
+
+    /// Marathon (see `Ev::Bulk`). Only messages that can never justify a report take part: every
+    /// reference model is idempotent under them after the first round, so the observers hear two
+    /// rounds before and one round after, and the n rounds in between are a bare loop over every
+    /// instance that must answer nothing every time.
+    fn do_bulk(&mut self, n: u32, cycle: &[[u8; 3]]) -> Result<(), Panicked> {
+        let quiet = |b: &[u8; 3]| {
+            if b[0] < 0x80 || b[1] > 127 || b[2] > 127 {
+                return false;
+            }
+            match cc(*b) {
+                Some((_, cn, _)) => !matches!(cn, 6 | 38 | 96 | 97) && !(32..64).contains(&cn),
+                None => true,
+            }
+        };
+        let msgs: Vec<[u8; 3]> = cycle.iter().filter(|b| quiet(b)).cloned().collect();
+        if msgs.is_empty() {
+            return Ok(());
+        }
+        self.p.bulk_events += 1;
+        if n >= 1 << 16 {
+            self.p.bulk_rounds_max_2pow16 += 1;
+        }
+        if n >= 1 << 20 {
+            self.p.bulk_rounds_max_2pow20 += 1;
+        }
+        if n >= 1 << 24 {
+            self.p.bulk_rounds_max_2pow24 += 1;
+        }
+        for _ in 0..2 {
+            for b in msgs.iter() {
+                self.deliver(*b, REPR_RAW, None)?;
+                self.resync_clock();
+            }
+        }
+        // ---- the fast path
+        struct M {
+            raw: RawShortMessage,
+            b: [u8; 3],
+            solo: Option<usize>,
+            twin_cc: bool,
+            twin_pn: bool,
+        }
+        let mut pre: Vec<M> = Vec::with_capacity(msgs.len());
+        for b in msgs.iter() {
+            let raw = api(L::ingest_from_bytes, || RawShortMessage::from_bytes((b[0], U7::new(b[1]), U7::new(b[2]))))?;
+            let Ok(raw) = raw else { return Ok(()) };
+            let ccv = cc(*b);
+            pre.push(M {
+                raw,
+                b: *b,
+                solo: if b[0] < 0xF0 { Some((b[0] & 0x0F) as usize) } else { None },
+                twin_cc: matches!(ccv, Some((_, cn, _)) if is_cc14_cn(cn)),
+                twin_pn: matches!(ccv, Some((_, cn, _)) if is_pn_cn(cn)),
+            });
+        }
+        let t0 = self.now;
+        let (main, solo, twin, fresh, forks) = (&mut self.main, &mut self.solo, &mut self.twin, &mut self.fresh, &mut self.forks);
+        // (round, message, instance, scanner) of the first answer that is not "nothing"
+        let anomaly = api(L::polling_feed, || {
+            for round in 0..n {
+                for (j, m) in pre.iter().enumerate() {
+                    macro_rules! quiet_feed {
+                        ($s:expr, $inst:expr, $cc:expr, $pn:expr) => {{
+                            clk::set_now(t0);
+                            if $cc && $s.cc.feed(&m.raw).is_some() {
+                                return Some((round, j, $inst, 0u8));
+                            }
+                            if $pn {
+                                if $s.pn.feed(&m.raw).is_some() {
+                                    return Some((round, j, $inst, 1u8));
+                                }
+                                if $s.po.feed(&m.raw) != [None, None] {
+                                    return Some((round, j, $inst, 2u8));
+                                }
+                            }
+                        }};
+                    }
+                    quiet_feed!(main, 0u8, true, true);
+                    if let Some(c) = m.solo {
+                        quiet_feed!(solo[c], 1u8, true, true);
+                    }
+                    quiet_feed!(twin, 2u8, m.twin_cc, m.twin_pn);
+                    if let Some(f) = fresh.as_mut() {
+                        quiet_feed!(f, 3u8, true, true);
+                    }
+                    for f in forks.iter_mut() {
+                        quiet_feed!(f.copy, 4u8, true, true);
+                    }
+                }
+            }
+            None
+        })?;
+        clk::set_now(t0);
+        self.p.bulk_fast_rounds += n as u64;
+        self.p.bulk_fast_feeds += n as u64 * pre.len() as u64;
+        self.sig.b(0x71);
+        if let Some((round, j, inst, scn)) = anomaly {
+            let rule = match (inst, scn) {
+                (0, 0) => R::C08_spurious,
+                (0, 1) => R::C11_spurious,
+                (0, _) => R::C14_I3,
+                (1, _) => R::C15_solo_feed,
+                (2, _) => R::C16_twin,
+                (3, _) => R::C17_fresh,
+                _ => R::C17_copy,
+            };
+            let who = ["the main instance", "the solo scanner of that channel (the main instance had answered nothing)", "the filtered twin (the main instance had answered nothing)", "the scanner created at the last reset (the main instance had answered nothing)", "a lockstep copy (the main instance had answered nothing)"][inst as usize];
+            let what = ["14-bit CC", "(N)RPN", "polling (N)RPN"][scn as usize];
+            let b = pre[j].b;
+            self.sink.check(rule, false, || format!("marathon round {} (after 2 observed rounds): {:02x?}, which can justify no report, made the {} scanner of {} report something", round, b, what, who));
+            // the instances are out of step now; the closing round would only add noise
+            return Ok(());
+        }
+        for b in msgs.iter() {
+            self.deliver(*b, REPR_RAW, None)?;
+            self.resync_clock();
+        }
         Ok(())
     }
 
@@ -750,6 +874,7 @@ impl<'a> Exec<'a> {
             Ev::Repeat { .. } => Ok(()),
             Ev::Snapshot => self.do_snapshot(),
             Ev::FeedAbort { b, which } => self.do_feed_abort(*b, *which),
+            Ev::Bulk { n, cycle } => self.do_bulk(*n, cycle),
             Ev::Hop { n } => {
                 self.p.thread_hop_windows += 1;
                 self.hop = *n as u32;
